@@ -85,12 +85,12 @@ def oracle(S, proto, path, op, a0, a1, obs, want1, probe=None):
         if obs is not None and obs[k] != 0:
             fails.append(('strided-mask-gets-grad:%s' % attr, 'layer %s is a strided Conv1d but its %s has a .grad after forward + (loss+cost).backward()' % (ln, names[k])))
     # (2d) trainable means trainable: after forward + (loss+cost).backward() every tensor with requires_grad=True that the
-    #      network uses has a .grad (PIT prototypes use every parameter; elsewhere: weights / biases found in use on the prototype),
+    #      network uses has a .grad (every PIT mask; weights / biases found in use on the prototype: a BatchNorm folded into its layer is not),
     #      and the cost and the output follow an update of every trainable PIT mask
     if obs is not None:
         for k, n in enumerate(names):
             attr = n.rsplit('.', 1)[1]
-            used = method == 'PIT' or (attr in ('weight', 'bias') and S['reads'][k])
+            used = (method == 'PIT' and attr in ('alpha', 'beta', 'gamma')) or (attr in ('weight', 'bias') and S['reads'][k])   # a BN folded into its layer keeps unused parameters
             if a1['rg'][k] and used and obs[k] == 0 and S['frozen'][k] != 'PITFrozenFeaturesMasker':
                 fails.append(('trainable-no-grad:%s:%s' % (method, attr), '%s has requires_grad=True but no .grad after forward + (loss+cost).backward()' % n))
     for n, cchg, ychg in (probe or []):
